@@ -33,5 +33,6 @@ def run(ctx):
     fmmmode.fmm_mode(ctx)
     fmmmode.curl_reuse(ctx)
     fmmmode.near_dispatch(ctx)
+    fmmmode.csr_counter(ctx)
     c11.edge_convention(ctx)
     rules.kernel_specs(ctx, ("laplace", "helmholtz", "modified_helmholtz"), include_singular=False)
